@@ -1263,8 +1263,8 @@ def run(tier):
         try:
             tiny = dict(tiny_async.get(timeout=1500))
             ora = ora_async.get(timeout=2400)
-            thist = thist_async.get(timeout=1500)
-            ora = list(ora) + list(ohist_async.get(timeout=2400))
+            thist = eclib.get_or_report(rep, "C17", thist_async, 1500)
+            ora = list(ora) + eclib.get_or_report(rep, "C17", ohist_async, 2400)
         finally:
             pool.terminate()
             thist_async.terminate()
